@@ -54,6 +54,8 @@ extern "C" const char *__asan_default_options() {
 }
 extern "C" const char *__ubsan_default_options() { return "print_stacktrace=1:halt_on_error=1"; }
 
+static char g_hang_ctx[400];   // watchdog context: optional JSON fragment, e.g. "hex":"c000c000c002","off":4
+
 // --------------------------------------------------------------------------
 // plumbing
 static std::string hex(const unsigned char *p, size_t n) {
@@ -556,7 +558,10 @@ static std::string op_namebox(const J &v, FILE *out) {
       for (size_t i = 0; i < len; i++) buf[i] = al[idx[i]];
       strings++;
       std::string line;
+      std::string hx = hex(buf, len);
+      alarm(5);   // per string: a decoder that loops is reported with the string it loops on
       for (size_t off = 0; off < len; off++) {
+        snprintf(g_hang_ctx, sizeof g_hang_ctx, "\"hex\":\"%s\",\"off\":%zu", hx.c_str(), off);
         char *s1  = NULL;
         long  enc = -1;
         int   st1 = ares_expand_name(buf + off, buf, (int)len, &s1, &enc);
@@ -597,6 +602,7 @@ static std::string op_namebox(const J &v, FILE *out) {
     }
     free(buf);
   }
+  g_hang_ctx[0] = 0;
   return "\"strings\":" + num((long long)strings) + ",\"calls\":" + num((long long)calls) + ",\"accepted\":" +
          num((long long)accepted) + ",\"disagree\":" + num((long long)disagree) + ",\"first_disagree\":" + q(first_disagree);
 }
@@ -688,6 +694,19 @@ static std::string op_legacylen(const J &) {
 
 // --------------------------------------------------------------------------
 static std::vector<std::string> g_lines;
+// watchdog ("the call terminates"): on expiry the child itself reports which input was being decoded
+static int           g_outfd = -1;
+static char          g_hang_id[128];
+static void on_alarm(int) {
+  char   buf[700];
+  size_t n = 0;
+  auto   put = [&](const char *t) { while (*t && n + 1 < sizeof buf) buf[n++] = *t++; };
+  put("\n{\"id\":\""); put(g_hang_id); put("\",\"crash\":1,\"exit\":-1,\"sig\":14,\"report\":\"watchdog: the call did not return\"");
+  if (g_hang_ctx[0]) { put(",\"hang\":{"); put(g_hang_ctx); put("}"); }
+  put("}\n");
+  if (g_outfd >= 0) { ssize_t w = write(g_outfd, buf, n); (void)w; }
+  _exit(81);
+}
 static int                      g_reports = 0;   // crash / leak result lines written so far
 
 static std::string get_id(const std::string &line) {
@@ -700,13 +719,18 @@ static std::string get_id(const std::string &line) {
 static void run_child(size_t from, size_t to, int progress_fd, const char *outpath, size_t leak_every) {
   FILE *out = fopen(outpath, "a");
   if (!out) _exit(3);
+  g_outfd = open(outpath, O_WRONLY | O_APPEND);
+  signal(SIGALRM, on_alarm);
   size_t since = 0, batch_start = from;
   for (size_t i = from; i < to; i++) {
     unsigned int idx = (unsigned int)i;
     if (write(progress_fd, &idx, sizeof idx) != sizeof idx) _exit(4);
     J v;
     bool parsed = cj::parse(g_lines[i], v);
-    alarm(parsed && v["alarm"].num() > 0 ? (unsigned)v["alarm"].num() : 20);   // watchdog: "the call terminates"
+    snprintf(g_hang_id, sizeof g_hang_id, "%s", get_id(g_lines[i]).c_str());
+    g_hang_ctx[0] = 0;
+    fflush(out);
+    alarm(parsed && v["alarm"].num() > 0 ? (unsigned)v["alarm"].num() : 8);   // watchdog: "the call terminates"
     if (!parsed) { fprintf(out, "{\"id\":\"%s\",\"badvector\":1}\n", get_id(g_lines[i]).c_str()); continue; }
     std::string op = v["op"].s, body;
     if (op == "parse") body = op_parse(v);
@@ -808,12 +832,17 @@ static void drive(size_t from, size_t to, const char *outpath, size_t leak_every
     }
     deaths++;
     g_reports++;
+    if (WIFEXITED(status) && WEXITSTATUS(status) == 81) {   // watchdog: the child wrote the result line itself
+      fclose(out);
+      next = (size_t)last + 1;
+      continue;
+    }
     std::string id = any ? get_id(g_lines[last]) : "";
     std::string report = slurp(errpath, 6000);
     if (WIFEXITED(status) && WEXITSTATUS(status) == 78) {
-      fprintf(out, "{\"id\":\"%s\",\"leak\":1,\"report\":\"%s\"}\n", id.c_str(), jesc(report).c_str());
+      fprintf(out, "\n{\"id\":\"%s\",\"leak\":1,\"report\":\"%s\"}\n", id.c_str(), jesc(report).c_str());
     } else {
-      fprintf(out, "{\"id\":\"%s\",\"crash\":1,\"exit\":%d,\"sig\":%d,\"report\":\"%s\"}\n", id.c_str(),
+      fprintf(out, "\n{\"id\":\"%s\",\"crash\":1,\"exit\":%d,\"sig\":%d,\"report\":\"%s\"}\n", id.c_str(),
               WIFEXITED(status) ? WEXITSTATUS(status) : -1, WIFSIGNALED(status) ? WTERMSIG(status) : 0,
               jesc(report).c_str());
     }
